@@ -171,55 +171,99 @@ def chain_of(fn):
     return None, None
 
 
+LANE_NAMES = ["CHICKEN", "PIG", "SMALL", "MEDIUM", "LARGE"]
+
+
+def expected_lane(atype, size):
+    """chicken and pig are classes of their own whatever their size; every other species goes by size"""
+    if atype == "chicken":
+        return 0
+    if atype == "pig":
+        return 1
+    return {"small": 2, "medium": 3, "large": 4}[size]
+
+
+def classify_site(index, rel, q, lane_of):
+    """runs the per-animal loop of function q for every (type, size) combination on a generic animal whose type and size are concrete
+    strings; lane_of(events, env, interp, fn) -> lane index the animal's slaughter series / yield was routed to (or None)"""
+    from .trace import trace_block
+    from .symx import Path as P_
+    fn = index.func(rel, q)
+    loops = [s_ for s_ in fn.body if isinstance(s_, ast.For)]
+    if not loops:
+        raise AnalysisError(f"{q}: per-animal loop not found")
+    loop = loops[0]
+    pre = fn.body[: fn.body.index(loop)]
+    env0 = {a.arg: P_((f"P{i}",)) for i, a in enumerate(fn.args.args)}
+    out = {}
+    for atype in ("chicken", "pig", "goat"):
+        for size in ("small", "medium", "large"):
+            try:
+                leaves = trace_block(fn, [s_ for s_ in pre if isinstance(s_, ast.Assign)] + [loop], dict(env0),
+                                     elem_attrs={"animal_type": atype, "animal_size": size})
+            except Unsupported as e:
+                raise AnalysisError(f"{q}: per-animal loop outside the analysed fragment: {e}")
+            lanes = set()
+            for dec, ev, env, it in leaves:
+                lanes.add(lane_of(ev, env, it, fn))
+            out[(atype, size)] = lanes
+    return fn, out
+
+
+def _slaughter_tags(ev):
+    """tags of the values np.array(elem.slaughter) produced in this trace"""
+    out = set()
+    for k, e in enumerate(ev):
+        if e.kind == "call" and e.name in ("np.array", "np.asarray") and e.args and isinstance(e.args[0], Path) and e.args[0].parts[:2] == ("elem", "slaughter"):
+            out.add(f"ret:{e.name}@{k + 1}")
+    return out
+
+
 def klass(index, rep):
     rule = "C05.CLASS"
-    produced_vars = {}
-    sites = {
-        "CalculateFeedAndMeat.get_meat_produced": (ANIM, {"CHICKEN": "chickens_killed_for_meat", "PIG": "pigs_killed_for_meat",
-                                                          "SMALL": "animals_killed_for_meat_small_nonchicken",
-                                                          "MEDIUM": "animals_killed_for_meat_medium_nonpig",
-                                                          "LARGE": "animals_killed_for_meat_large"}),
-        "Parameters.get_animal_meat_dictionary": (PARAMS, {"CHICKEN": "chickens_culled", "PIG": "pigs_culled",
-                                                           "SMALL": "small_animals_nonchicken_culled", "MEDIUM": "medium_animals_nonpig_culled",
-                                                           "LARGE": "large_animals_culled"}),
-        "AnimalModelBuilder.get_optimal_next_animal_to_feed": (ANIM, {"CHICKEN": "KCALS_PER_CHICKEN", "PIG": "KCALS_PER_PIG",
-                                                                      "SMALL": "KCALS_PER_SMALL_ANIMAL", "MEDIUM": "KCALS_PER_MEDIUM_ANIMAL",
-                                                                      "LARGE": "KCALS_PER_LARGE_ANIMAL"}),
-    }
-    for q, (rel, lane_names) in sites.items():
-        fn = index.func(rel, q)
-        ch, var = chain_of(fn)
-        if ch is None:
-            raise AnalysisError(f"{q}: species/size chain not found")
-        tests = [t for t, _ in ch if t != "else"]
-        rep.check(tests == [t for t, _ in CHAIN], rule, f"{q}:chain-predicates",
-                  f"the species -> size-class predicates differ from the reference chain: {tests}", loc=loc(rel, fn))
-        arm_var = {}
-        for (t, body), (_, lane) in zip(ch, CHAIN):
-            txt = " ".join(norm_src(s) for s in body)
-            want = lane_names[lane]
-            slaughter = f"np.array({var}.slaughter)"
-            if q.endswith("get_animal_meat_dictionary"):
-                ok = f"{want}={slaughter}" in txt.replace(" ", "") and txt.count(slaughter) == 1
-            elif q.endswith("get_meat_produced"):
-                # the arm accumulates this animal's slaughter series into ONE array; which array is learnt here and checked against the return order
-                st0 = body[0] if len(body) == 1 else None
-                tgt = st0.targets[0] if isinstance(st0, ast.Assign) and len(st0.targets) == 1 else (st0.target if isinstance(st0, ast.AugAssign) else None)
-                ok = isinstance(tgt, ast.Name) and norm_src(st0.value) == slaughter and (isinstance(st0, ast.Assign) or isinstance(st0.op, ast.Add))
-                if ok:
-                    arm_var[lane] = tgt.id
-            else:
-                ok = f"kcals_per_head_meat_dict['{want}']" in txt and len(body) == 1
-            rep.check(ok, rule, f"{q}:{lane}", f"the {lane.lower()} arm does not feed the {lane.lower()} lane: {txt[:90]}", loc=loc(rel, body[0]))
-        if q.endswith("get_meat_produced"):
-            produced_vars = dict(arm_var)
-    # positional hand-off of the five arrays: the return order is chicken, pig, small, medium, large
-    gmp = index.func(ANIM, "CalculateFeedAndMeat.get_meat_produced")
-    ret = [r for r in gmp.body if isinstance(r, ast.Return)][-1]
-    order = [norm_src(e) for e in ret.value.elts]
-    want_order = [produced_vars.get(l) for _, l in CHAIN]
-    rep.check(None not in want_order and len(set(want_order)) == 5 and order == want_order, rule, "get_meat_produced:return-order",
-              f"returns {order}, the arms fill {want_order} (chicken, pig, small, medium, large)", loc=loc(ANIM, ret))
+    from .trace import tags
+
+    def lane_produced(ev, env, it, fn):
+        ret = [r for r in fn.body if isinstance(r, ast.Return) and isinstance(r.value, ast.Tuple)]
+        names = [norm_src(e) for e in ret[-1].value.elts] if ret else []
+        st = _slaughter_tags(ev)
+        hit = [i for i, nme in enumerate(names) if nme in env and (tags(env[nme]) & st)]
+        return hit[0] if len(hit) == 1 and len(names) == 5 else None
+
+    def lane_dictionary(ev, env, it, fn):
+        calls = [e for e in ev if e.kind == "call" and e.name == "get_max_slaughter_monthly_after_distribution_waste"]
+        if len(calls) != 1:
+            return None
+        callee = index.func(MD, "MeatAndDairy.get_max_slaughter_monthly_after_distribution_waste")
+        order = [a.arg for a in callee.args.args if a.arg.endswith("_culled")]
+        st = _slaughter_tags(ev)
+        hit = [order.index(k) for k, v in calls[0].kwargs.items() if k in order and (tags(v) & st)]
+        zero = [k for k, v in calls[0].kwargs.items() if k in order and not (tags(v) & st)]
+        return hit[0] if len(hit) == 1 and len(zero) == 4 and len(order) == 5 else None
+
+    def lane_yield(ev, env, it, fn):
+        keys = ["KCALS_PER_CHICKEN", "KCALS_PER_PIG", "KCALS_PER_SMALL_ANIMAL", "KCALS_PER_MEDIUM_ANIMAL", "KCALS_PER_LARGE_ANIMAL"]
+        stores = [e for e in ev if e.kind == "store" and e.elem]
+        found = set()
+        for e in stores:
+            for t in tags(e.args[1]):
+                for i, k in enumerate(keys):
+                    if t.endswith("." + k):
+                        found.add(i)
+        return found.pop() if len(found) == 1 else None
+
+    sites = (("CalculateFeedAndMeat.get_meat_produced", ANIM, lane_produced, "slaughter series accumulated"),
+             ("Parameters.get_animal_meat_dictionary", PARAMS, lane_dictionary, "slaughter series passed"),
+             ("AnimalModelBuilder.get_optimal_next_animal_to_feed", ANIM, lane_yield, "per-head meat yield used"))
+    for q, rel, lane_of, what in sites:
+        fn, table = classify_site(index, rel, q, lane_of)
+        for (atype, size), lanes in sorted(table.items()):
+            want = expected_lane(atype, size)
+            ok = lanes == {want}
+            got = sorted(LANE_NAMES[l] if l is not None else "none/ambiguous" for l in lanes)
+            rep.check(ok, rule, f"{q}:{atype if atype != 'goat' else 'other species'}/{size} -> {LANE_NAMES[want]}",
+                      f"{what} for a {size} {atype if atype != 'goat' else 'animal of another species'} goes to {got}, expected the {LANE_NAMES[want]} class "
+                      "(chicken, pig by species; everything else by size) - the three classification chains must agree", loc=loc(rel, fn))
     cm = index.func(PARAMS, "Parameters.calculate_meat_from_feed_results")
     unp = [s for s in cm.body if isinstance(s, ast.Assign) and isinstance(s.value, ast.Call) and dotted(s.value.func) == "feed_meat_object.get_meat_produced"]
     if len(unp) != 1:
